@@ -148,4 +148,54 @@ theorem step_unique_perm_dsts (cfg : Cfg) (st : State) (t : Int) (dsts dsts' : L
     (allSorted_srcOf cfg st t dsts' b.1) hu
   exact ⟨c, x, φ x, e1, e2, hz x u1.1.1, u1, u2⟩
 
+/-! ## non-vacuity (tests, labelled as such) -/
+
+/-- a step with two separate sub-nets (2 sources / 2 destinations each: sources at 0, 2 with
+features at 1, 3; sources at 100, 102 with features at 101, 104) and two unclaimed features (50, 70) -/
+def x23Cfg : Cfg :=
+  { w := [1], B := 9, memory := 0, maxNeighbors := 10, maxSize := 10, vel := none, drop := false }
+def x23St : State :=
+  { srcs := [⟨[0], 0, 0, 0⟩, ⟨[2], 1, 0, 0⟩, ⟨[100], 2, 0, 0⟩, ⟨[102], 3, 0, 0⟩],
+    used := [0, 1, 2, 3] }
+def x23Dsts : List Pos := [[1], [3], [50], [101], [104], [70]]
+
+/-- the destination list reversed (`f j = 5 - j`): the `f`-image of the groups before is
+`([3,2],[2,1]), ([1,0],[5,4]), ([],[3]), ([],[0])` — after the reversal the destinations of the
+second group are listed in the other order and the two source-free groups come out in the other
+order: equal only up to `GroupsEquiv`. -/
+example :
+    stepGroups x23Cfg x23St 1 x23Dsts = [([3, 2], [3, 4]), ([1, 0], [0, 1]), ([], [2]), ([], [5])] ∧
+    stepGroups x23Cfg x23St 1 x23Dsts.reverse =
+      [([3, 2], [2, 1]), ([1, 0], [4, 5]), ([], [0]), ([], [3])] := by
+  decide +kernel
+
+theorem x23_cands :
+    stepCands x23Cfg x23St 1 x23Dsts =
+      [[(some 0, 1), (some 1, 9), (none, 9)], [(some 1, 1), (some 0, 1), (none, 9)],
+       [(some 3, 1), (none, 9)], [(some 3, 1), (some 4, 4), (none, 9)]] ∧
+    stepCands x23Cfg x23St 1 x23Dsts.reverse =
+      [[(some 5, 1), (some 4, 9), (none, 9)], [(some 5, 1), (some 4, 1), (none, 9)],
+       [(some 2, 1), (none, 9)], [(some 2, 1), (some 1, 4), (none, 9)]] := by
+  decide +kernel
+
+/-- the per-sub-net costs on both orders, computed: the same multiset (here even the same list) -/
+example : stepCosts x23Cfg x23St 1 x23Dsts = [some 5, some 2, none, none] ∧
+    stepCosts x23Cfg x23St 1 x23Dsts.reverse = [some 5, some 2, none, none] := by
+  have hg : stepGroups x23Cfg x23St 1 x23Dsts =
+        [([3, 2], [3, 4]), ([1, 0], [0, 1]), ([], [2]), ([], [5])] ∧
+      stepGroups x23Cfg x23St 1 x23Dsts.reverse =
+        [([3, 2], [2, 1]), ([1, 0], [4, 5]), ([], [0]), ([], [3])] := by decide +kernel
+  simp only [stepCosts, hg.1, hg.2, x23_cands.1, x23_cands.2]
+  simp [gSrcs, srcOf, getD', optCost, solveOrdered, go, exceeds, taken, better, addTaken]
+
+/-- the hypothesis of `step_cost_perm_dsts` / `step_unique_perm_dsts` on that instance, and both
+sub-net optima are unique -/
+example : x23Dsts.Perm x23Dsts.reverse ∧
+    countOptimal ([3, 2].map (srcOf (stepCands x23Cfg x23St 1 x23Dsts))) = 1 ∧
+    countOptimal ([1, 0].map (srcOf (stepCands x23Cfg x23St 1 x23Dsts))) = 1 := by
+  refine ⟨(List.reverse_perm _).symm, ?_, ?_⟩ <;>
+  · rw [x23_cands.1]
+    simp [srcOf, getD', countOptimal, allCompletions, completions, solveOrdered, go, exceeds, taken,
+      better, addTaken]
+
 end TrackpyV.Linker
